@@ -61,12 +61,12 @@ CLAIMED = {
    design="4/C17"),
  "C01": dict(
    technique="stateful property testing / fuzzing: generated host-call histories (proptest, shrinking) through a protocol-respecting driver with crash, idle-after-error, caret-rendering and liveness oracles; child-process battery for native-stack exhaustion; libFuzzer target in the thorough tier",
-   text="Generated sessions (structured programs + command scripts, hostile boundary lines, raw Unicode) are driven through the real Interpreter under the turn-taking protocol; every call must return (catch_unwind), every Err must leave the interpreter Idle with a renderable error, breaks and replies must produce the documented states, and a final PRINT 7 must work. Boundary numerals (line 2^64-1, subscripts near 2^32/2^63, 19-40 subscripts, seeds >= 2^44) are enumerated exhaustively in fixed scripts; 10 nesting constructs up to 300000 levels deep are run in child processes on an 8 MiB stack for both the interpreter and the analyzer.",
-   note="Panics are observed with catch_unwind in an overflow-checked optimised build; stack exhaustion is decided per build profile by exit status of child processes; hangs are watchdog exits (2), never violations.",
+   text="Generated sessions (structured programs + command scripts, hostile boundary lines, raw Unicode) are driven through the real Interpreter under the turn-taking protocol; every call must return (catch_unwind), every Err must leave the interpreter Idle with a renderable error, breaks and replies must produce the documented states, and a final PRINT 7 must work. Boundary numerals (line 2^64-1, subscripts near 2^32/2^63, 19-40 subscripts, seeds >= 2^44) are enumerated exhaustively in fixed scripts; 16 nesting / token-run constructs (parentheses, calls, subscripts, IF chains, chains of 31 DEFs, runs of unary operators / separators) up to 300000 levels deep are run in child processes on a 1 MiB stack for both the interpreter and the analyzer.",
+   note="Panics are observed with catch_unwind in an overflow-checked optimised build; stack exhaustion is decided for the optimised harness build on a 1 MiB main-thread stack (the WASM default; roughly a debug build on 8 MiB) by exit status of child processes; hangs are watchdog exits (2), never violations.",
    design="4/C01"),
  "C05": dict(
    technique="property-based fuzzing of file texts (grammar-generated programs + document-level mutations, mutated repo programs, atom soup, raw Unicode) against a validity predicate over diagnostics and token ranges; libFuzzer target in the thorough tier",
-   text="For generated documents SourceFileAnalyzer::analyze must return, yield one token list per file line, and every diagnostic must map to Some((line, range)) on the line it names, inside that line and on character boundaries; per-line token ranges must be ordered, disjoint and in bounds. Duplicated / emptied / untokenizable redefinitions, CRLF, multi-byte characters outside strings and u64-boundary line numbers are forced by the generator (class histogram in the evidence). Deep nesting of file texts is covered by C01's child-process battery (target 'analyze').",
+   text="For generated documents SourceFileAnalyzer::analyze must return, yield one token list per file line, and every diagnostic must map to Some((line, range)) on the line it names, inside that line and on character boundaries; per-line token ranges must be ordered, disjoint and in bounds. Duplicated / emptied / untokenizable redefinitions, CRLF, multi-byte characters outside strings and u64-boundary line numbers are forced by the generator (class histogram in the evidence). Deeply nested and very long constructs are analyzed in child processes on a 1 MiB stack and judged by exit status (family deep-nesting).",
    note="Trusts the 80-line predicate check_document in c05.rs.",
    design="4/C05"),
  "C04": dict(
